@@ -738,6 +738,161 @@ func C03(c *core.Ctx) {
 			}
 			c.Floor("R3.13", "API durations stored into TLV time elements", nDur, 2)
 		}
+		// ---- R3.15 a segment search by prefix sums is half-open. The segmented reader finds
+		// the segment that holds an offset by testing acc[i] and acc[i+1] against it: exactly
+		// one of the two tests is strict ((<=, >) or (<, >=)) — with both strict an offset that
+		// lies on a segment boundary belongs to no segment, with both closed to two.
+		{
+			nSearch := 0
+			for _, fn := range p.FuncsIn(core.ModPath + "/std/encoding") {
+				if strings.HasSuffix(p.File(fn.Pos()), "_test.go") {
+					continue
+				}
+				type cmpAt struct {
+					bo   *ssa.BinOp
+					base ssa.Value
+					idx  ssa.Value
+					off  int64
+					v    ssa.Value
+					op   token.Token
+				}
+				var cmps []cmpAt
+				core.Instrs(fn, func(in ssa.Instruction) {
+					bo, ok := in.(*ssa.BinOp)
+					if !ok {
+						return
+					}
+					op, x, y := bo.Op, bo.X, bo.Y
+					switch op {
+					case token.LSS, token.LEQ, token.GTR, token.GEQ:
+					default:
+						return
+					}
+					load := func(v ssa.Value) (*ssa.IndexAddr, bool) {
+						u, ok := core.Strip(v).(*ssa.UnOp)
+						if !ok || u.Op != token.MUL {
+							return nil, false
+						}
+						ia, ok := u.X.(*ssa.IndexAddr)
+						return ia, ok
+					}
+					ia, isX := load(x)
+					if !isX {
+						if ia2, isY := load(y); isY {
+							ia, x, y, op = ia2, y, x, core.Swap(op)
+							isX = true
+						}
+					}
+					if !isX {
+						return
+					}
+					_ = x
+					idx, off := ia.Index, int64(0)
+					if b, ok := core.Strip(idx).(*ssa.BinOp); ok && b.Op == token.ADD {
+						if k, isC := core.ConstInt(b.Y); isC {
+							idx, off = b.X, k
+						}
+					}
+					cmps = append(cmps, cmpAt{bo, ia.X, idx, off, y, op})
+				})
+				for _, lo := range cmps {
+					if lo.off != 0 || (lo.op != token.LSS && lo.op != token.LEQ) {
+						continue
+					}
+					for _, hi := range cmps {
+						if hi.off != 1 || (hi.op != token.GTR && hi.op != token.GEQ) {
+							continue
+						}
+						if !(core.Strip(lo.idx) == core.Strip(hi.idx)) || !(core.Strip(lo.v) == core.Strip(hi.v) || core.Same(lo.v, hi.v)) || !(core.Strip(lo.base) == core.Strip(hi.base) || core.Same(lo.base, hi.base)) {
+							continue
+						}
+						nSearch++
+						c.Funcs[core.FuncName(fn)] = true
+						strictLo, strictHi := lo.op == token.LSS, hi.op == token.GTR
+						c.Decide(strictLo != strictHi, "R3.15", fmt.Sprintf("segment-search-half-open:%s#%d", core.FuncName(fn), nSearch), c.Pos(lo.bo), "the offset is located by a half-open interval test on consecutive prefix sums", fmt.Sprintf("%s locates an offset among the segments with the tests acc[i] %s x and acc[i+1] %s x: %s — a packet whose bytes are split into segments at such an offset decodes to something else than the contiguous bytes", core.FuncName(fn), lo.op, hi.op, map[bool]string{true: "an offset exactly on a segment boundary belongs to no segment, the search result keeps its zero value and the range is taken from the start of the wire", false: "an offset exactly on a segment boundary belongs to two segments"}[strictLo]))
+					}
+				}
+			}
+			c.Floor("R3.15", "segment searches by prefix sums in std/encoding", nSearch, 2)
+		}
+		// ---- R3.16 a length or type written as a single header octet is below 253: outside
+		// the number primitives (whose tables R3.2 decides) a store of byte(x) into a buffer,
+		// with x a length (len(…)) or a TLNum, is reachable only behind x <= 252 — 253..255 are
+		// the markers of the 3/5/9-octet forms, every decoder reads them as such
+		{
+			nOct := 0
+			// (std/encoding only: the signature-length patch of MakeData / MakeInterest writes
+			// byte(len(sigValue)) into a header that was sized for the signer's estimate — its
+			// correctness depends on estimate and result lying in the same form, a relation
+			// between two run-time numbers that holds for the shipped signers and is not decided)
+			for _, pkg := range []string{"std/encoding"} {
+				for _, fn := range p.FuncsIn(core.ModPath + "/" + pkg) {
+					file := p.File(fn.Pos())
+					if strings.HasSuffix(file, "_test.go") || strings.HasSuffix(file, "zz_generated.go") {
+						continue
+					}
+					core.Instrs(fn, func(in ssa.Instruction) {
+						st, ok := in.(*ssa.Store)
+						if !ok {
+							return
+						}
+						if _, isIA := st.Addr.(*ssa.IndexAddr); !isIA {
+							return
+						}
+						cv, ok := st.Val.(*ssa.Convert)
+						if !ok {
+							return
+						}
+						if bt, isB := cv.Type().Underlying().(*types.Basic); !isB || bt.Kind() != types.Uint8 {
+							return
+						}
+						x := cv.X
+						isLen := false
+						if _, l := core.LenOf(x); l {
+							isLen = true
+						}
+						if ph, isPhi := x.(*ssa.Phi); isPhi {
+							for _, e := range ph.Edges {
+								if _, l := core.LenOf(e); l {
+									isLen = true
+								}
+							}
+						}
+						isTL := false
+						if n, isN := x.Type().(*types.Named); isN && n.Obj().Name() == "TLNum" {
+							isTL = true
+						}
+						if !isLen && !isTL {
+							return
+						}
+						nOct++
+						c.Funcs[core.FuncName(fn)] = true
+						small := &core.Atom{Name: "value ≤ 252", Match: func(cond ssa.Value) (int, int) {
+							op, a, b, okC := core.Cmp(cond)
+							if !okC {
+								return 0, 0
+							}
+							k, isC := core.ConstInt(b)
+							if !isC || !(core.StripConv(a) == core.StripConv(x) || core.Same(a, x)) {
+								return 0, 0
+							}
+							switch {
+							case op == token.GTR && k <= 252, op == token.GEQ && k <= 253:
+								return -1, 1
+							case op == token.LEQ && k <= 252, op == token.LSS && k <= 253:
+								return 1, -1
+							case op == token.EQL && k <= 252:
+								return 1, 0
+							}
+							return 0, 0
+						}}
+						g := core.GateDeep(fn, []ssa.Instruction{in}, pos(small))
+						c.Decide(g.OK && g.PerLit[0] > 0, "R3.16", fmt.Sprintf("single-header-octet-below-253:%s#%d", core.FuncName(fn), nOct), c.Pos(in), "the value is written as one octet only behind a test that it is at most 252", core.FuncName(fn)+" writes "+describeValue(x)+" as a single octet of a TLV header without having established that it is at most 252: 253, 254 and 255 are the markers of the longer number forms, so a value or type of exactly that size is written as a marker and every decoder reads a different, longer number after it")
+					})
+				}
+			}
+			c.Extra["single_octet_header_stores"] = nOct
+		}
 		// ---- R3.14 writer and reader agree on "a parameters-digest component needs
 		// parameters": checkInterest refuses such an Interest (C12 R12.7) and the Interest
 		// encoder cuts a trailing digest component off the name, so MakeInterest must not
